@@ -1,7 +1,7 @@
 (* C18: evaluation of harness cases - dispatcher over all case kinds (Model.run_case for kinds 0..7,
    the FiberPool / pipeline / executor models for the kinds added later).  Definitions only. *)
 From ZV.Common Require Import Base Run.
-From ZV.C18 Require Import Model ModelFiber ModelPipe ModelExec ModelGlobalPar ModelYield.
+From ZV.C18 Require Import Model ModelFiber ModelPipe ModelExec ModelGlobalPar ModelYield ModelStore.
 Open Scope N_scope.
 
 (* kind 8 FiberPool history; 9 FiberPool::parallel_map (b = 0: preceded by the result-collection model of
@@ -16,7 +16,8 @@ Open Scope N_scope.
    18 concurrency::parallel_reduce (a = num_cpus::get());
    19 the yielding loops of fiber_yield.rs / FiberIoUtils::batch_process driven by hand (a = which, b = interval / batch size);
    20 `buffered(max_concurrent)` of concurrent_with_yield / process_files_parallel with gated operations
-   (a = max_concurrent, b = number of operations, ops = items ++ gate order) *)
+   (a = max_concurrent, b = number of operations, ops = items ++ gate order);
+   21 AsyncMemoryBlobStore history (put_batch / put / remove / get_batch / len) *)
 Definition old_hist_op (o : Z) : bool := (1000 <=? o)%Z || ((o <? 40)%Z && negb (o =? 6)%Z).
 Definition run_case2 (fixed : bool) (kind a b : N) (ops : list Z) : list Z :=
   match kind with
@@ -34,5 +35,6 @@ Definition run_case2 (fixed : bool) (kind a b : N) (ops : list Z) : list Z :=
   | 18 => case_g_reduce a ops
   | 19 => case_yield a b ops
   | 20 => case_buffered a b ops
+  | 21 => case_store ops
   | _ => run_case fixed kind a b ops
   end.
